@@ -158,6 +158,10 @@ class TracedModel:
         self.inner = inner
         self.tracer = tracer
 
+    def __getattr__(self, name):
+        # everything else (cfg, parameters, eval, …) is the served model's own
+        return getattr(object.__getattribute__(self, "inner"), name)
+
     def __call__(self, positions, mask):
         tr = self.tracer
         tr.rec("R:%d" % positions.shape[0])
@@ -606,7 +610,27 @@ def cls_schedules(ctx):
     positions = [ser.pos_str(p) for _, p in gen.sample_positions(rng, [3, 4, 5, 6], 2, per_game=4, constructed_per_size=0, custom_prob=0.0)]
     if "positions" not in _state:
         _state["positions"] = positions
+    # late-game 6x6 positions whose encoding fills the model's context exactly (96 tokens) or all
+    # but one: the longest request the served model can evaluate locally
+    import tak
+    from tak import pieces as _pc
+    from tak.model import encoding as _enc
+
+    limit = []
+    for want in (96, 96, 95):
+        hs = [rng.choice([0, 1, 1, 1]) for _ in range(36)]
+        while 6 + sum(max(1, h) for h in hs) < want:
+            hs[rng.randrange(36)] += 1
+        board = [[_pc.Piece.cached(_pc.Color(rng.randrange(2)), _pc.Kind.FLAT) for _ in range(h)] for h in hs]
+        p = tak.Position(size=6, stones=(tak.StoneCounts(3, 1), tak.StoneCounts(4, 0)), ply=rng.choice([40, 41]), board=board)
+        if len(_enc.encode(p)) == want:
+            limit.append(ser.pos_str(p))
     n_s = 120 if ctx.thorough else 30
+    for k, pl in enumerate(limit):
+        yield "real-context-limit", {
+            "mode": "cls", "arrivals": [[0, pl]] + [[int(t), rng.choice(positions)] for t in (0, 0, 500)], "latency_us": [2500],
+            "model_seed": k % 3, "eval_mode": bool(k % 2), "pe": ["sin", "learned", "none"][k % 3],
+        }
     for k in range(n_s):
         shape = rng.choice(["burst", "burst", "trickle", "during", "big", "zero-family", "zero-family"])
         if shape in ("burst", "zero-family"):
@@ -849,6 +873,7 @@ def run_session(sess):
         result = None
         old = []  # frozen copies of earlier weight versions (to name a stale answer as such)
         changed = 0
+        kept = []  # (op index, the vector the client handed out, its bits at that moment)
         for k, op in enumerate(sess["ops"]):
             if op[0] == "update":
                 old.append(copy.deepcopy(model))
@@ -873,6 +898,13 @@ def run_session(sess):
                 if _bits(probs.numpy()) != _bits(served) or float(value) != float(replies[-1].value):
                     result = ("client-decode", "the client returned a vector/value different from the served reply", k)
                     break
+            kept.append((k, probs, _bits(probs.numpy())))
+            moved = [k0 for k0, t0, b0 in kept[:-1] if _bits(t0.numpy()) != b0]
+            if moved:
+                # an answer is a value: the vector handed out for an EARLIER request reads differently
+                # after this one (the search keeps the priors of every node it expanded)
+                result = ("client-decode", "the policy vector returned for request #%d changed when request #%d was evaluated through the same client" % (moved[0], k), k)
+                break
             if not _close(probs.numpy(), float(value), cur):
                 key = "not-local-equal"
                 for v_, m_ in enumerate(old):
